@@ -437,3 +437,98 @@ func init() {
 		return r.err == nil, "FLOAT16 tensor with int32_data -> " + r.String()
 	}
 }
+
+// FuzzC12 is the native coverage-guided target (thorough tier only): the fuzzer chooses data_type,
+// dims, the raw payload and which typed field is populated; the oracle is the same as in TestC12,
+// reduced to what can be said without knowing the intended values: a well-formed tensor of a
+// supported type decodes to exactly the declared shape and type with the payload's bits; anything
+// else must be an error.
+func FuzzC12(f *testing.F) {
+	f.Add(int32(1), []byte{2, 2}, []byte{0, 0, 128, 63, 0, 0, 0, 64, 0, 0, 64, 64, 0, 0, 128, 64}, uint8(0))
+	f.Add(int32(13), []byte{2}, make([]byte, 16), uint8(0))
+	f.Add(int32(7), []byte{3}, make([]byte, 23), uint8(0))
+	f.Add(int32(10), []byte{2}, []byte{1, 2, 3, 4}, uint8(2))
+	f.Add(int32(1), []byte{255, 2}, []byte{}, uint8(1))
+	f.Fuzz(func(t *testing.T, dataType int32, dimBytes []byte, payload []byte, field uint8) {
+		if len(dimBytes) > 5 || len(payload) > 256 {
+			return
+		}
+		tp := &onnx.TensorProto{DataType: dataType}
+		n := 1
+		for _, d := range dimBytes {
+			v := int64(int8(d)) // negative dims included
+			tp.Dims = append(tp.Dims, v)
+			if v <= 0 || n > 4096 {
+				n = -1
+			} else if n > 0 {
+				n *= int(v)
+			}
+		}
+		var dt tensor.Dtype
+		supported := false
+		for d, code := range onnxTypeOf {
+			if code == dataType {
+				dt, supported = d, true
+			}
+		}
+		switch field % 4 {
+		case 0:
+			tp.RawData = payload
+		case 1:
+			for _, b := range payload {
+				tp.FloatData = append(tp.FloatData, float32(int8(b)))
+			}
+		case 2:
+			for _, b := range payload {
+				tp.Int32Data = append(tp.Int32Data, int32(int8(b)))
+			}
+		default:
+			for _, b := range payload {
+				tp.Int64Data = append(tp.Int64Data, int64(int8(b)))
+			}
+		}
+		res := decodeProto(tp)
+		if res.panicked {
+			t.Fatalf("C12 violated: decoding panics: %v (data_type=%d dims=%v field=%d payload=%d bytes)", res.panicVal, dataType, tp.Dims, field%4, len(payload))
+		}
+		if res.err != nil {
+			return
+		}
+		if !supported {
+			if kfOpen("KF-C12-unsupported-type-fallback") && field%4 != 0 {
+				return
+			}
+			t.Fatalf("C12 violated: data_type %d was loaded as %v", dataType, res.t.Dtype())
+		}
+		if res.t.Dtype() != dt {
+			t.Fatalf("C12 violated: data_type %d loaded as %v, want %v", dataType, res.t.Dtype(), dt)
+		}
+		if n < 0 {
+			for _, d := range tp.Dims {
+				if d < 0 {
+					t.Fatalf("C12 violated: negative dims %v accepted", tp.Dims)
+				}
+			}
+			return // zero extents / huge shapes: outside the asserted domain
+		}
+		if field%4 == 0 {
+			if len(payload) != n*elemSize(dt) {
+				t.Fatalf("C12 violated: %d raw bytes accepted for dims %v of %v", len(payload), tp.Dims, dt)
+			}
+			got := rawBytes(elems(res.t))
+			if dt == tensor.Bool {
+				for i := range got {
+					if (got[i] != 0) != (payload[i] != 0) {
+						t.Fatalf("C12 violated: bool element %d decoded as %v from byte %d", i, got[i], payload[i])
+					}
+				}
+				return
+			}
+			if string(got) != string(payload) {
+				t.Fatalf("C12 violated: decoded values differ from the raw payload (dims %v, %v)", tp.Dims, dt)
+			}
+		} else if prod(res.t.Shape()) != n {
+			t.Fatalf("C12 violated: tensor of %d elements for dims %v", prod(res.t.Shape()), tp.Dims)
+		}
+	})
+}
